@@ -2,6 +2,7 @@ package main
 
 import (
 	"fmt"
+	"os"
 	"sort"
 	"strings"
 
@@ -32,6 +33,9 @@ func (h *hist) conservation(a *hx.Node) {
 		own = append(own, hx.TxSerialOf(tx))
 	}
 	sub := h.submitted[a.ID]
+	if os.Getenv("VERIF_C05DEBUG") != "" && fmt.Sprint(own) != fmt.Sprint(sub) {
+		fmt.Fprintf(os.Stderr, "C05DEBUG node=%d\n sub=%v\n own=%v\n", a.ID, sub, own)
+	}
 	if fmt.Sprint(own) != fmt.Sprint(sub) {
 		w.Violation("C05", "accepted-transactions-not-conserved",
 			fmt.Sprintf("node=%d submitted=%v events+pool=%v", a.ID, tail(sub), tail(own)))
@@ -243,6 +247,9 @@ func tableStr(t map[int][]int) string {
 // finalOracles: end-of-history checks.
 func (h *hist) finalOracles() {
 	for _, a := range h.nodes {
+		if h.badger != nil && a.ID == 0 {
+			continue // frames of old rounds are cache-only on the small-cache node (documented W4)
+		}
 		h.orderOracle(a)
 		h.peerSetOracle(a)
 		if !a.Faulty {
